@@ -3,6 +3,7 @@
 Part 1 is executed symbolically by pyvc (and concretely by the bounded companion); Part 2 are
 concrete builders used only by the bounded jobs of verif/props/C12.py and C13.py."""
 from buidl.ecc import G, N, PrivateKey, S256Point, SchnorrSignature
+from buidl.helper import int_to_byte
 from buidl.script import Script
 from buidl.taproot import (ControlBlock, MultiSigTapScript, MuSigTapScript, TapBranch, TapLeaf, TapRootMultiSig,
                            TapScript)
@@ -196,6 +197,28 @@ def tree4b(pub, d0, d1, d2, d3):
     return tree_control_blocks(pub, (((0, 1), 2), 3), [d0, d1, d2, d3])
 
 
+def _ghost_same(p, q):
+    """GHOST statement (no effect on any value handed to or returned by the real API): case split on
+    P - Q == infinity.  On the branch where it is, the engine learns dlog(P) == dlog(Q) as a rewrite rule;
+    it needs that when the code re-parses a point from its x-only bytes (fresh discrete log) and then
+    computes with it.  The other branch is explored like any other (and is infeasible when P == Q)."""
+    return (p + (-1 * q)).x is None
+
+
+def leaf_cb_parity_flipped(pub, d0):
+    """single-leaf tree: flip the parity bit of the serialized control block, parse it back;
+    -> (output key, key recomputed from the altered block, parity recorded in the altered block)"""
+    leaf = TapLeaf(Script([d0, 0xAC]))
+    ser = leaf.control_block(pub).serialize()
+    altered = ControlBlock.parse(int_to_byte(ser[0] ^ 1) + ser[1:])
+    _ghost_same(altered.internal_pubkey, pub.even_point())
+    return leaf.external_pubkey(pub), altered.external_pubkey(leaf.tap_script), altered.parity
+
+
+def parse_xonly_of(pub):
+    return S256Point.parse_xonly(pub.xonly())
+
+
 def cb_roundtrip_obj(pub, version, par, hashes):
     """parse(serialize(cb)) -> fields of the parsed block and its re-serialization"""
     cb = ControlBlock(version, par, pub, hashes)
@@ -216,6 +239,14 @@ def cb_roundtrip2(pub, version, par, h0, h1):
     return cb_roundtrip_obj(pub, version, par, [h0, h1])
 
 
-def cb_parse_len(b):
-    cb = ControlBlock.parse(b)
-    return len(cb.hashes)
+GX32 = bytes.fromhex("79BE667EF9DCBBAC55A06295CE870B07029BFCDB2DCE28D959F2815B16F81798")
+
+
+def cb_parse_short(b):
+    return ControlBlock.parse(b)
+
+
+def cb_parse_len_gx(first, tail):
+    """parse of first || x(G) || tail -> (number of path elements, leaf version, parity, re-serialization)"""
+    cb = ControlBlock.parse(first + GX32 + tail)
+    return len(cb.hashes), cb.tapleaf_version, cb.parity, cb.serialize()
